@@ -17,6 +17,7 @@ CONFIGS = {      # cell sizes are dyadic so that grid coordinates are exact in b
     'nondiv': ((0.0, 0.0, 3.0, 2.0), (0.7, 0.9), 0.0),      # resolution does not divide the extent: 4 x 2 cells of 0.75 x 1
     'tall':  ((0.0, 0.0, 2.0, 8.0), (0.5, 4.0), 0.0),       # dX = 0.5 << dY = 4: 4 x 2 cells
     'one':   ((0.0, 0.0, 2.0, 2.0), (3.0, 3.0), 0.5),       # a single cell
+    'narrow': ((0.0, 0.0, 2.0, 4.0), (1.0, 1.0), 0.0),      # more rows than columns: 2 x 4 unit cells
     'default': ((0.0, 0.0, 100.0, 50.0), None, 0.0),        # default resolution: 100 x 50 unit cells; point queries in two corner windows only
 }
 FEAT = 7
@@ -67,12 +68,12 @@ class C08(Check):
         return dict(grids=sorted(self._cfgs(tier)), registration='one symbolic 2-vertex feature (thorough: also 3 vertices)', queries=['point', 'segment', 'track (2 legs)', 'neighbourhood by converted ground distance'])
 
     def _cfgs(self, tier):
-        return ['sq1', 'tall'] if tier == 'quick' else ['sq1', 'rect', 'nondiv', 'tall', 'one']
+        return ['sq1', 'tall', 'narrow'] if tier == 'quick' else ['sq1', 'rect', 'nondiv', 'tall', 'one', 'narrow']
 
     def jobs(self, tier, seed):
         js = []
         q = tier == 'quick'
-        ncell = dict(sq1=6, rect=16, nondiv=8, tall=8, one=1)
+        ncell = dict(sq1=6, rect=16, nondiv=8, tall=8, one=1, narrow=8)
         for c in self._cfgs(tier):
             for k in range(ncell[c]):       # one job per cell of the first vertex (the jobs partition the input space)
                 js.append(dict(kind='register', cfg=c, nv=2, c0=k))
